@@ -10,8 +10,11 @@ claim(
     "under swapping the operands and the empty-side branches mirror each other; NaN-initialised fields are combined under "
     "a two-sided empty guard or a NaN-as-missing helper with a checked decision table; zero() is parameter-preserving and "
     "content-free; fill equals + with the singleton as an identity of rational functions (Count, Sum, Average, Deviate; "
-    "non-empty and empty node); defs.combine/increment. Necessary conditions of the property; associativity, data-dependent "
-    "key sets under fill and floating-point rounding are NOT decided.",
+    "non-empty and empty node) and, for Minimize/Maximize, as equality of decision tables; the leaf merge formulas composed "
+    "with themselves are associative ((a+b)+c == a+(b+c) as rational functions of the nine operand fields); children of "
+    "key-addressed collections are paired by key, never by position; combining with += keeps the receiver (shared rule of "
+    "C07); defs.combine/increment. Necessary conditions of the property; data-dependent key sets under fill and "
+    "floating-point rounding are NOT decided.",
     "Identities are over the reals; formula extraction follows the branch selected by the stated scenario (finite datum, "
     "empty/non-empty operands); an unsupported construct is ANALYSIS-ERROR, never a pass.",
     "DESIGN.md section 3, C01",
@@ -24,7 +27,9 @@ claim(
     "every key read back into the field it was written from, encoder applied exactly where the reader admits "
     "'nan'/'inf'/'-inf', children rebuilt by the factory of their own type tag with paired name suppression, registry and "
     "specialised `name` properties, fields established only by ed() surviving zero/+/* of a reloaded container with no slot "
-    "left None, and no JSON-keyed dict splatted into named parameters. Bit-exact float text and equality of reloaded "
+    "left None, no JSON-keyed dict splatted into named parameters, numbers stored into serialised fields by _numpy passing "
+    "through float()/int() (numpy integer/float32 scalars are not JSON-serialisable), and Bag's reader normalising numeric "
+    "keys with the same function as the filling path. Bit-exact float text and equality of reloaded "
     "content for arbitrary states are NOT decided.",
     "Assumes maybeAdd adds exactly the non-None keyword pairs and hasKeys is the closed-set test its body states (its "
     "shape is part of C15's gates).",
@@ -38,7 +43,9 @@ claim(
     "aggregator stored into a child slot of the result of __add__/__mul__/zero is fresh; aggregator-valued default arguments "
     "(45 sites incl. dfinterface) reach fillable slots only through copy()/zero() and constructor summaries do not weaken "
     "against the confirmed table; template instantiation in fill/_numpy is fresh per slot; quantity names are written only "
-    "on objects fresh out of ed(). Run-time object graphs built by user code are NOT decided.",
+    "on objects fresh out of ed(); mutable default arguments are never written and never become object state anywhere in the "
+    "package; the plotting mixins are analysed with the field shapes of their host primitive and the projections they build "
+    "hold only fresh counters. Run-time object graphs built by user code are NOT decided.",
     "Induction hypothesis: +, *, zero(), copy() of a child aggregator return fresh objects (the same rule is checked on every "
     "class). Flow-insensitive joins make the analysis conservative.",
     "DESIGN.md section 3, C06",
@@ -48,7 +55,8 @@ claim(
     "sibling agreement __iadd__ vs __add__ (def-use labels, guard signatures) + ownership lattice + CFG return check",
     "Decides for all 19 __iadd__: delegation (`both = self + other`, every content field taken from it) or in-place idiom with "
     "the same raising structural guards as __add__, every accumulator augmented (not overwritten) from the same field of "
-    "`other`, every child slot merged with +=, right-only keys inserted; every normal path returns self; `other` is never "
+    "`other`, every child slot merged with += (children of key-addressed slots paired by key), right-only keys inserted; "
+    "NaN-initialised fields merged under the two-sided empty discipline; every normal path returns self; `other` is never "
     "written and nothing borrowed from it is stored into self; fillsparksql merges with +=. Value-level equality under "
     "rounding is NOT decided.",
     "Same induction as C06 for child +=.",
@@ -61,20 +69,22 @@ claim(
     "derived from fill by homogeneity (weight, entries degree 1; datum degree 0) - extensive accumulators and every child slot "
     "multiplied by the factor, intensive ones copied; __rmul__ delegates; stores keep the container kind fixed by __init__ "
     "wherever the class uses the field kind-sensitively (tuple concat, hash, item assignment); Count refuses a non-identity "
-    "transform first. Numeric identities under rounding are NOT decided.",
+    "transform first; a slot that __init__ mirrors into per-element attributes (Branch.i0..iN) is only ever set by __init__; "
+    "the children of h*f are fresh objects (shared rule of C06). Numeric identities under rounding are NOT decided.",
     "The degree assignment must be the unique consistent one; otherwise ANALYSIS-ERROR.",
     "DESIGN.md section 3, C08",
 )
 claim(
     "C09",
-    "def-use analysis of __eq__ (field-dependence labels with keys/len/zip flavours) + evaluation-order isinstance check + "
-    "shape check of numeq",
+    "def-use analysis of __eq__ (field-dependence labels with keys/len/zip/slice flavours) + must-depend conjunction analysis "
+    "over the CFG + evaluation-order isinstance check + shape check of numeq",
     "Decides which fields == can see: every field that toJsonFragment serialises flows from both operands into a "
     "content-sensitive comparison not under `or`; iterating/sorting a dict compares keys only and does not count; zip counts "
-    "only with a length equality; NaN-initialised fields go through numeq; isinstance(other, K) precedes any read of other; "
+    "only with a length equality and a proper slice does not count as the whole field; the quantity whose name is serialised "
+    "takes part in == and UserFcn.__eq__ depends on name and expr on every path; NaN-initialised fields go through numeq; isinstance(other, K) precedes any read of other; "
     "__ne__ negates ==; numeq has the NaN/inf/guarded-widening-tolerance/exact-fallback shape. Equality of clones is NOT "
     "decided (needs their content).",
-    "UserFcn equality by code object is taken as given.",
+    "UserFcn equality of two Python functions by code object is taken as given.",
     "DESIGN.md section 3, C09",
 )
 claim(
@@ -83,7 +93,8 @@ claim(
     "Decides for all 19 __add__/__iadd__: the type of `other` is established (isinstance with a failure edge that can only "
     "raise, or an attribute only that class defines) before any store, child merge or construction; every structural "
     "parameter is compared with a raising mismatch edge (scalars by value, fixed layouts by length/keys/thresholds, data-keyed "
-    "containers by declared content type); and that += changes no state before an operation that can still reject - the "
+    "containers by declared content type, which must survive zero/+/* in reloaded form - shared rule of C04); and that += "
+    "changes no state before an operation that can still reject - the "
     "last clause fails on the 12 container classes, which are recorded as known findings. Run-time behaviour on concrete "
     "trees is NOT executed.",
     "Nested mismatches surface from the child's own guard (induction over the same rule on every class).",
@@ -107,6 +118,7 @@ claim(
     "single-path containers fill at most one child per path (induction step for ancestors); the repository's own rollback "
     "marker comment never follows an own-state store. Run-time exception behaviour is NOT executed; numpy paths are outside "
     "the property.",
+    "A user value counts as validated only by an isinstance test against numbers.Real or narrower (or a string type): "
     "math.isnan/isinf, arithmetic and comparisons on a validated numbers.Real, and membership/store on the node's own dict "
     "with a validated hashable key do not raise.",
     "DESIGN.md section 3, C12",
@@ -118,7 +130,11 @@ claim(
     "Narrow structural part: every self.x in primitives/specialised classes/plot mixins resolves in each composition; the "
     "accessors of Bin/SparselyBin/CentrallyBin reach the routing function fill uses and do not re-implement index arithmetic; "
     "element counts agree (edges = entries + 1, centres = entries = num_bins) on the full-range and general branches; "
-    "Categorize labels/entries iterate the same dict. Sub-range numerics, 2-D grids, projections and mpv are NOT decided.",
+    "Categorize labels/entries iterate the same dict; 2-D grids/projections sum inner-most bins only; every edge expression "
+    "(range(), isclose corrections) is the class's one edge function of its index; children are looked up by an index obtained "
+    "from the class's own index methods, never from inline arithmetic on the query; views have no store effect on the "
+    "histogram and projections are built from fresh counters (shared rules of C06). Sub-range numerics (rounding, arange "
+    "lengths) and mpv are NOT decided.",
     "IrregularlyBin.fill routes inline, so there is no shared routing function to compare with for that class.",
     "DESIGN.md section 3, C13",
 )
@@ -141,7 +157,8 @@ claim(
     "value from a previous loop iteration reaches a use, every non-raising path through a builder loop stores the "
     "element, every hasKeys gate is closed and its failure edge can only raise, no fall-through return, no exception "
     "built without raise, every JSON value is used only under a type validation that agrees with the use, ed() "
-    "re-validates ranges, header/version/unknown-type gates raise. This is the structural clause of the property "
+    "re-validates ranges, header/version/unknown-type gates raise, every child fragment is parsed by the factory of its own "
+    "type tag (shared rule of C04). This is the structural clause of the property "
     "(every failed validation ends in raise; nothing dropped, duplicated or defaulted); behaviour of fromJson on "
     "concrete documents is not executed.",
     "Assumes an unbound local raises, Factory.registered[x] raises for unknown x, child readers validate their own "
@@ -176,8 +193,9 @@ claim(
     "Decides for all 19 fill(): no effect for NaN/non-positive weights; for every container the routing table region -> "
     "{(child slot, weight)} over ALL order-type regions of the datum (NaN, -inf, each critical point, each open interval, +inf; "
     "1-3 thresholds/centres quick, 0-5 thorough) equals the specified table; the generic-case accumulator updates equal the "
-    "specified functions as rational functions; Minimize/Maximize follow the min/max-ignoring-NaN decision table; Deviate.fill "
-    "handles the mean exactly like Average.fill. Every statement of every fill must be reached by some scenario. NOT decided: "
+    "specified functions as rational functions; Minimize/Maximize follow the min/max-ignoring-NaN decision table; a float-class "
+    "interpretation of Average.fill and Deviate.fill over (empty|finite|+inf|-inf|NaN state) x (finite|+inf|-inf|NaN datum) "
+    "yields the IEEE class of the weighted mean/variance of those data (opposite infinities -> NaN). Every statement of every fill must be reached by some scenario. NOT decided: "
     "that the opaque in-range index arithmetic picks the numerically right bucket for every float; floating-point summation "
     "order; what user functions return.",
     "Exact abstraction for comparison-only code (two data in one region take the same path). Library summaries are listed in "
@@ -207,7 +225,8 @@ claim(
     "in every path of _numpy; on every path with positive weight entries is incremented exactly once by the caller's weight "
     "and the partition child / collection children / Fraction.denominator / Bag cell receive that same weight; a fixed-length "
     "child sequence is never indexed by an unclamped float-derived index (scalar and vectorised); __mul__ implements the "
-    "scaling table derived from fill. NOT decided: that floats adjacent to an edge land in the numerically right bin, and "
+    "scaling table derived from fill; a numeric datum never makes fill raise; no node writes into the weight/data arrays its "
+    "siblings also use and child += other_child updates the child (shared rules of C03/C07). NOT decided: that floats adjacent to an edge land in the numerically right bin, and "
     "sums up to rounding; invariants through + and += are the structural clauses of C01/C07.",
     "Same assumptions as C02/C03.",
     "DESIGN.md sections 2.4 and 3, C05",
